@@ -550,3 +550,12 @@ impl<Ctx: OptCtx> LoweredToMir<'_, Ctx> {
         crate::verif_hooks::c03::dump_items(&self.ir, &mut ctx)
     }
 }
+
+#[cfg(feature = "verif-hooks")]
+impl<Ctx: OptCtx> LoweredToLir<'_, Ctx> {
+    /// Verification hook (C20): the lowered items, so that a hook can
+    /// perturb the IR (and restore it) before handing it to the evaluator.
+    pub fn verif_c20_items_mut(&mut self) -> &mut Vec<lir::Item> {
+        &mut self.ir.functions
+    }
+}
